@@ -161,6 +161,26 @@ Theorem C04_html_tokenizer_total_no_pauses :
 Proof. exact html_tokenizer_total_quiet. Qed.
 Print Assumptions C04_html_tokenizer_total_no_pauses.
 
+(* ALL INPUT IS CONSUMED (the third clause of the property): whenever feed() answers "done" (TokenizerResult::Done) the
+   input queue is empty - what the tokenizer holds back (an eat() look-ahead, a pending character reference) lives in
+   its own buffers - and so does the driver's feed loop with script pauses and injected text in between.  From any
+   machine satisfying the two invariants, with fuel above the bound. *)
+Theorem C04_html_feed_done_means_all_input_consumed :
+  forall simd ent c1 sk, html_sink_ok sk = true ->
+  forall fuel m, HtmlTI m -> HtmlK m -> (html_fuel (html_unread m) <= fuel)%nat ->
+  let r := feed [] fq_next fq_peek (@app N) (fun q => q) fq_run1 html_flavour true html_table simd ent c1 sk fuel m in
+  snd r = SSuspend -> mq (fst r) = [].
+Proof. exact html_feed_consumes. Qed.
+Print Assumptions C04_html_feed_done_means_all_input_consumed.
+
+Theorem C04_html_feed_loop_done_means_all_input_consumed :
+  forall simd ent c1 sk, html_sink_ok sk = true ->
+  forall fuel inj n m log, HtmlTI m -> HtmlK m -> (html_fuel (html_unread m + n * length inj) <= fuel)%nat ->
+  let r := feed_loop [] fq_next fq_peek (@app N) (fun q => q) fq_run1 html_flavour true html_table simd ent c1 sk n fuel inj m log in
+  hd (SPanic 0) (snd r) = SSuspend -> mq (fst r) = [].
+Proof. exact html_feed_loop_consumes. Qed.
+Print Assumptions C04_html_feed_loop_done_means_all_input_consumed.
+
 (* from any machine satisfying the two invariants (kept by feed, pushed chunks and injected text) *)
 Theorem C04_html_tokenizer_total_from_any_machine :
   forall simd ent c1 sk, html_sink_ok sk = true ->
